@@ -99,6 +99,13 @@ def operand_missing(toks):
             continue
         prev = toks[i - 1] if i > 0 else None
         nxt = toks[i + 1] if i + 1 < n else None
+        # an empty pair of parentheses holds no operand
+        if t[1] in BINARY or t[1] in ('+', '-'):
+            if nxt == ('op', '(') and i + 2 < n and toks[i + 2] == ('op', ')'):
+                return True
+        if t[1] in BINARY:
+            if prev == ('op', ')') and i >= 2 and toks[i - 2] == ('op', '('):
+                return True
         if t[1] in BINARY:
             if prev is None or prev[0] == 'fn' or (prev[0] == 'op' and prev[1] != ')'):
                 return True          # nothing that ends an operand in front of it
